@@ -1,5 +1,6 @@
 import SnootyVerif.Proofs.Subst
 import SnootyVerif.Proofs.SubstWalk
+import SnootyVerif.Proofs.SubstCtx
 
 /-!
 # C07 — Substitutions and source constants resolve by the documented scoping rules
@@ -204,5 +205,86 @@ theorem constants_prefix_copied (isWord : Char → Bool) (consts : List (List Ch
 /-- non-vacuity: unknown constant on the third line -/
 example : (substConsts (fun c => c.isAlphanum) [] 20 0 "a\n\n{+zz+}b".toList).2 = [(['z', 'z'], 2)] := by
   decide
+
+/-! ### block / inline context adaptation (`extract_inline`, `search_inline`, `search_block`; Model/SubstCtx.lean) -/
+section Context
+open SnootyVerif.SubstCtx
+
+/-- `extract_inline` is total: its `nodes[0]` subscript is never reached with an empty list (an empty definition
+satisfies the `all(...)` test before it), so no definition makes the substitution pass raise IndexError. -/
+theorem extract_inline_total (ns : List Node) : ∃ r, extractInline ns = .ok r := extractInline_ok ns
+
+/-- what `extract_inline` returns is exactly: the definition itself when it is inline throughout, the children of its
+single paragraph when that paragraph is inline throughout - and nothing else. -/
+theorem extract_inline_spec (ns out : List Node) :
+    extractInline ns = .ok (some out) ↔
+      (ns.all Node.isInline = true ∧ out = ns) ∨
+      (ns.all Node.isInline = false ∧ ∃ id, ns = [.para id out] ∧ out.all Node.isInline = true) := by
+  constructor
+  · exact extractInline_some
+  · rintro (⟨h, rfl⟩ | ⟨_, id, rfl, h⟩)
+    · exact extractInline_of_inline h
+    · exact extractInline_of_para h
+
+/-- **Inline context is never given block content.** Whatever children `search_inline` puts under an inline
+`|name|` reference are non-empty and inline nodes only, and they are the definition or the content of its single
+paragraph. -/
+theorem inline_context_sound (defn cs : List Node) (h : searchInline defn = .ok (.children cs)) :
+    cs ≠ [] ∧ cs.all Node.isInline = true ∧ (cs = defn ∨ ∃ id, defn = [.para id cs]) := by
+  unfold searchInline at h
+  split at h
+  · cases h
+  · rename_i c r he
+    simp only [Except.ok.injEq, InlineResult.children.injEq] at h
+    subst h
+    rcases extractInline_some he with ⟨ha, hd⟩ | ⟨_, id, hd, ha⟩
+    · exact ⟨by simp, hd ▸ ha, Or.inl hd⟩
+    · exact ⟨by simp, ha, Or.inr ⟨id, hd⟩⟩
+  · cases h
+
+/-- **Block content substituted into inline context is reported.** A definition holding a block-level node, unless it
+is one paragraph of inline nodes, gets the InvalidContextError diagnostic and the reference is left without children;
+so does an empty definition (`if not substitution` is true for the empty list). -/
+theorem block_in_inline_reported (defn : List Node) (h1 : defn.all Node.isInline = false)
+    (h2 : ∀ id cs, defn = [.para id cs] → cs.all Node.isInline = false) :
+    searchInline defn = .ok .invalidContext := by
+  unfold searchInline
+  rw [extractInline_none_of h1 h2]
+
+theorem empty_in_inline_reported : searchInline [] = .ok .invalidContext := by rfl
+
+/-- `search_inline` never raises. -/
+theorem search_inline_total (defn : List Node) : ∃ r, searchInline defn = .ok r := by
+  unfold searchInline
+  obtain ⟨r, hr⟩ := extractInline_ok defn
+  rw [hr]
+  split
+  · rename_i h; cases h
+  · exact ⟨_, rfl⟩
+  · exact ⟨_, rfl⟩
+
+example : searchInline [.inl 1, .inl 2] = .ok (.children [.inl 1, .inl 2]) := by rfl
+example : searchInline [.para 0 [.inl 1, .inl 2]] = .ok (.children [.inl 1, .inl 2]) := by rfl
+example : searchInline [.inl 1, .blk 2] = .ok .invalidContext := by rfl
+example : searchInline [.para 0 [.inl 1], .para 3 [.inl 2]] = .ok .invalidContext := by rfl
+example : searchInline [.para 0 []] = .ok .invalidContext := by rfl
+
+/-- **Block context: inline content is wrapped, nothing is lost or reordered.** The children `search_block` puts under
+a block-level `|name|` reference hold no inline node at the top level; every paragraph it creates is non-empty and
+inline throughout; no two created paragraphs are adjacent (adjacent inline nodes share one paragraph); and splicing the
+created paragraphs back gives exactly the definition. -/
+theorem block_context_wraps (defn : List Node) (hw : ∀ x ∈ defn, x.isWrap = false) :
+    (∀ x ∈ searchBlock defn, x.isInline = false) ∧
+    (∀ cs, Node.wrap cs ∈ searchBlock defn → cs ≠ [] ∧ cs.all Node.isInline = true) ∧
+    noAdjacentWraps (searchBlock defn) = true ∧
+    unwrap (searchBlock defn) = defn := by
+  refine ⟨fun x hx => blockGo_no_inline defn [] x hx, blockGo_wraps defn [] rfl hw, blockGo_coalesced defn [] hw, ?_⟩
+  have := unwrap_blockGo defn [] hw
+  simpa [searchBlock] using this
+
+example : searchBlock [.inl 1, .inl 2, .blk 3, .para 4 [.inl 5], .inl 6] =
+    [.wrap [.inl 1, .inl 2], .blk 3, .para 4 [.inl 5], .wrap [.inl 6]] := by rfl
+
+end Context
 
 end SnootyVerif.C07
